@@ -19,7 +19,7 @@ func init() {
 	register(&Prop{
 		ID:    "C12",
 		Level: "exploration",
-		Rule: "(the write direction also with values behind flags that are not set: the flags decide) PES packets encoded by the reference codec from random/swept header models (all 256 flag bytes x 32 extension subsets incl. pack_header_field, single-bit clock values, all trick mode bytes, " +
+		Rule: "(the write direction also with values behind flags that are not set and with bits above the width of every narrow field: the flags / the bits that are written decide) PES packets encoded by the reference codec from random/swept header models (all 256 flag bytes x 32 extension subsets incl. pack_header_field, single-bit clock values, all trick mode bytes, " +
 			"CRC values, header stuffing, four PES_packet_length modes) and decoded by the library (NextData through TS packets and the parsePESData hook); writer-supported headers " +
 			"written with WriteData and compared byte for byte after independent reassembly; units of 65 500 bytes .. 1 MiB + 1 through NextData (stage big); PES_header_data_length rewritten to every value below what the flags need: payload boundaries (stage short-header); ClockReference.Duration against big.Int; distinct = hash of the PES bytes; " +
 			"non-trivial = optional header with at least one optional field, or a non-exact length mode",
@@ -566,6 +566,27 @@ func checkPESEncode(c *mon.Ctx, stage string, idx int64, r *rand.Rand, flags, ex
 			oh.Extension2Data = gen.Bytes(r, 1+r.IntN(20))
 		}
 		c.Count("headers_written_with_values_behind_unset_flags")
+	}
+	if oh := h.OptionalHeader; oh != nil && idx%3 == 1 {
+		// bits above the width of a field (the structs keep 1 .. 22 bit fields in uint8 / uint16 / uint32): cut off when the field
+		// is written - and what follows a field goes by the bits that are written
+		oh.PTSDTSIndicator |= 4 << uint(r.IntN(6))
+		oh.ScramblingControl |= 4 << uint(r.IntN(6))
+		oh.ESRate |= 1 << uint(22+r.IntN(10))
+		oh.AdditionalCopyInfo |= 0x80
+		oh.PacketSequenceCounter |= 0x80
+		oh.MPEG1OrMPEG2ID |= 2 << uint(r.IntN(7))
+		oh.OriginalStuffingLength |= 0x40 << uint(r.IntN(2))
+		oh.PSTDBufferScale |= 2 << uint(r.IntN(7))
+		oh.PSTDBufferSize |= 1 << uint(13+r.IntN(3))
+		if tm := oh.DSMTrickMode; tm != nil {
+			tm.TrickModeControl |= 8 << uint(r.IntN(5))
+			tm.FieldID |= 4 << uint(r.IntN(6))
+			tm.IntraSliceRefresh |= 2 << uint(r.IntN(7))
+			tm.FrequencyTruncation |= 4 << uint(r.IntN(6))
+			tm.RepeatControl |= 32 << uint(r.IntN(3))
+		}
+		c.Count("headers_written_with_bits_above_the_field_widths")
 	}
 	enc := refts.PESEnc{LengthZero: h.StreamID == 0xE0 || h.StreamID == 0xFD}
 	want, err := refts.EncodePES(model, data, enc, nil)
